@@ -102,12 +102,18 @@ type c04Case struct {
 	// the client's first attempt arrives while its registration is tracked but not validated yet
 	// (it is refused, as C02 demands); the registration is then validated and the client retries
 	EarlyAttempt bool
+	// the client falls silent for Pause after the PauseAfter-th segment (a lost segment retransmitted after back-off)
+	Pause      time.Duration
+	PauseAfter int
 }
 
 func (c c04Case) label() string {
 	ea := ""
 	if c.EarlyAttempt {
 		ea = " after-early-attempt"
+	}
+	if c.Pause > 0 {
+		ea += fmt.Sprintf(" pause=%v-after-segment-%d", c.Pause, c.PauseAfter)
 	}
 	return fmt.Sprintf("%s cuts=%v early=%d others=%v%s", c.Desc, c.Cuts, c.Early, c.Others, ea)
 }
@@ -161,6 +167,11 @@ func c04Session(s *vStation, rec *kit.Rec, rng interface{ Read([]byte) (int, err
 	early := c04IDs(0xA0, cs.Early)
 	stream := append(append([]byte{}, flight...), early...)
 	segs := c03Segments(stream, cs.Cuts)
+	if cs.Pause > 0 && cs.PauseAfter < len(segs) {
+		withPause := append([]kit.Seg{}, segs[:cs.PauseAfter]...)
+		withPause = append(withPause, kit.Seg{Pause: cs.Pause})
+		segs = append(withPause, segs[cs.PauseAfter:]...)
+	}
 
 	conn := kit.NewScriptConn("client", kit.TCPAddr(phantom.String(), 443), kit.TCPAddr("203.0.113.77", 40001), nil, kit.EndBlock)
 	conn.MaxBlock = 120 * time.Second
@@ -377,6 +388,19 @@ func TestVerifC04MinPrefix(t *testing.T) {
 			every = append(every, p)
 		}
 		cases = append(cases, c04Case{TT: c.TT, Params: c.Params, Desc: c.Desc, Cuts: every, Early: 31, Others: true})
+	}
+	// (e) a silence of a few seconds in the middle of the flight (well below the 5 s the classification deadline is at
+	// least): the segment after the cut was lost and is retransmitted after back-off.  With and without other
+	// registrations (min, obfs4, prefix) on the phantom; cuts before and after the 64th byte.
+	for _, c := range cfgs {
+		for _, cut := range []int{1, 31, 63, 64, 65, 70, c.FLen - 1} {
+			if cut <= 0 || cut >= c.FLen {
+				continue
+			}
+			for _, pause := range []time.Duration{2500 * time.Millisecond, 4 * time.Second}[:kit.Tier(1, 2)] {
+				cases = append(cases, c04Case{TT: c.TT, Params: c.Params, Desc: c.Desc, Cuts: []int{cut}, Early: 31, Others: cut%2 == 0 || cut >= 64, Pause: pause, PauseAfter: 1})
+			}
+		}
 	}
 	var wg sync.WaitGroup
 	ch := make(chan c04Case, 64)
